@@ -150,8 +150,15 @@ def c02(case: Dict[str, Any], obs: Dict[str, Any]) -> Optional[str]:
 # ---- C08 -------------------------------------------------------------------------------------
 
 def marker_extras(r: Requirement) -> List[str]:
+    """the extras that ACTIVATE the requirement: none when its marker already holds without any extra (`python_version
+    >= "3" or extra == "y"`), otherwise the extras the marker names"""
     out = set()
     if r.marker is not None:
+        try:
+            if r.marker.evaluate({"extra": ""}):
+                return []
+        except Exception:  # noqa: BLE001
+            pass
         for m in re.finditer(r'extra\s*==\s*["\']([^"\']+)["\']', str(r.marker)):
             out.add(m.group(1).strip().lower())
     return sorted(out)
